@@ -93,6 +93,7 @@ type Sched struct {
 	// configuration
 	LockPoints   bool                    // mutex operations are schedule points (else they are free: one thread at a time)
 	Shared       map[*vhook.RWMutex]bool // mutexes whose guarded accesses are checked by the lockset monitor
+	OnLock       func()                  // called by the running thread at every lock acquisition (observation hook)
 	UnlockPoints bool                    // also make every unlock a schedule point (redundant, for cross-checking)
 	MaxSteps     int                     // 0 = default 20000
 	Record       bool                    // keep Trace
@@ -648,6 +649,9 @@ func (s *Sched) Yield(tag string) {
 func (s *Sched) Lock(m *vhook.RWMutex, write bool) {
 	if s.aborting {
 		return
+	}
+	if s.OnLock != nil {
+		s.OnLock()
 	}
 	if !s.LockPoints {
 		// one thread at a time and no schedule point inside critical sections:
